@@ -184,6 +184,15 @@ func c02(c *Ctx) {
 			c.R.Unknown(load.FuncName(ob)+": shape", c.pos(ob.Pos()), "expected one controller test and one result store")
 		} else {
 			c.requireCross(load.FuncName(ob)+": result store owner-checked", mu, fcs[0].Ours, "no controller, or controller UID == XR UID")
+			// … on what was read last: no Get refreshes the object between the test and the store
+			for _, g := range calls(ob, clientGet) {
+				a := cfgx.CallArgs(g)
+				if len(a) < 3 || flow.Root(underIface(a[2])) != fcs[0].Of {
+					continue
+				}
+				stale := cfgx.ReachesInIteration(fcs[0].Get, g)
+				c.R.Check(!stale, site(g)+" before the controller test", c.pos(g.Pos()), "the object is not read again after its controller was examined", "the controller test runs before this read refreshes the object: on a cache miss it examines an empty object and the foreign-controlled one fetched afterwards is observed as ours")
+			}
 			c.R.Check(flow.Default.Any(mu.Value, func(v ssa.Value) bool { return v == fcs[0].Of }) && fcs[0].Owner == ssa.Value(ob.Params[2]), load.FuncName(ob)+": same object, XR owner", c.pos(mu.Pos()), "the stored object is the one tested, against the XR's UID", "the stored object is not the tested one, or the UID compared is not the XR's")
 		}
 	}
